@@ -419,7 +419,9 @@ func c08(c *Ctx) {
 		// unparsable skipped
 		okSkip := false
 		for _, cl := range callsTo(mp, "builtin append") {
-			isErr := func(v ssa.Value) bool { return strings.Contains(pathOf(v), "ParseFloat") && strings.HasSuffix(pathOf(v), "#1") }
+			isErr := func(v ssa.Value) bool {
+				return strings.Contains(pathOf(v), "ParseFloat") && strings.HasSuffix(pathOf(v), "#1")
+			}
 			if cmpHolds(factsAt(cl.Block()), isErr, isNilConst, token.EQL) {
 				okSkip = true
 			}
